@@ -72,8 +72,12 @@ def oracle_(iw, h, res, hl, names0, s0):
     if len(comps) == 1:
         want['exterior'] = [(si, di) for si, row in enumerate(pt) for di, p in enumerate(row) if p is None and li[si][di] in ext]
         want['enclosed'] = [(si, di) for si, row in enumerate(pt) for di, p in enumerate(row) if p is None and li[si][di] not in ext]
-        got['exterior'] = list(c.exterior_domains)
-        got['enclosed'] = list(c.enclosed_domains)
+        if len(hl) % 2:
+            got['enclosed'] = list(c.enclosed_domains)
+            got['exterior'] = list(c.exterior_domains)
+        else:
+            got['exterior'] = list(c.exterior_domains)
+            got['enclosed'] = list(c.enclosed_domains)
         want['loop_index'] = li
         got['loop_index'] = [[c.get_loop_index((si, di)) for di in range(len(row))] for si, row in enumerate(pt)]
     want['strand_lengths'] = [len(x) for x in strands]
@@ -153,7 +157,7 @@ def run(res, proof):
         pairs = list(itertools.product(ops, repeat=2))
         for combo in (rng.sample(pairs, 40) if quick else pairs):
             run_seq(s, names, list(combo))
-        for q in ['q\th2\t%s\t' % v for v in ('pair_table', 'strand_table', 'exterior', 'rotate', 'is_connected')] + ops[-3:]:
+        for q in ['q\th2\t%s\t' % v for v in ('pair_table', 'strand_table', 'exterior', 'enclosed', 'rotate', 'is_connected', 'size')] + ops[-3:]:
             for v in (1, -1, 2):
                 run_seq(s, names, [q, 'set.turns\th2\t%d' % v, q])
         for _ in range(3 if quick else 12):
